@@ -10,7 +10,7 @@ anchored mechanism, each a statement about the shape of the code that holds for 
   E9  R8     a circle is based iff it contains the base edge - the same predicate for the complex and the cycles;
   E8  F2     the global shift is (-n_neg, n_pos - 2 n_neg) - Reidemeister I invariance fixes exactly this formula.
 """
-import e7_tables, e8_formulas, e22_choose, e9_relations
+import e7_tables, e8_formulas, e22_choose, e9_relations, e4_bitseq
 
 LEVEL = 'other'
 EXPLANATION = ('Static analysis (MIR path summaries, literal tables folded over their finite domains, affine form extraction) of the four '
@@ -35,4 +35,6 @@ def run(ctx, rep):
     e8_formulas.check_shift(facts, rep)
     rep.rule('E9.R8', 'one based-circle predicate (contains) for the complex and the tracked cycles: the reduced theory does not depend on the edge numbering')
     e9_relations.check_based_predicate(facts, rep)
+    rep.rule('E4.O6', 'the resolution state (BitSeq) is never truncated: weight = homological position stays right beyond 32 crossings (R-moves may push a diagram there)')
+    e4_bitseq.check_no_narrowing(facts, rep)
     rep.callsites += sum(len(facts.bodies[k].calls()) for k in rep.functions if k in facts.bodies)
